@@ -921,13 +921,26 @@ class LazyStackedTensorDict(TensorDictBase):
                     value_unbind,
                 ):
                     if mask.any():
-                        self.tensordicts[i]._set_at_str(
-                            key,
-                            _value,
-                            _idx,
-                            validated=validated,
-                            non_blocking=non_blocking,
-                        )
+                        # mask is a 0-dim True: see __setitem__
+                        mask_loc = split_index["mask_loc"]
+                        _idx = _idx[:mask_loc] + _idx[mask_loc + 1 :]
+                        _value = _value.squeeze(split_dim)
+                        if _idx:
+                            self.tensordicts[i]._set_at_str(
+                                key,
+                                _value,
+                                _idx,
+                                validated=validated,
+                                non_blocking=non_blocking,
+                            )
+                        else:
+                            self.tensordicts[i]._set_str(
+                                key,
+                                _value,
+                                inplace=True,
+                                validated=validated,
+                                non_blocking=non_blocking,
+                            )
             else:
                 for (i, _idx), _value in _zip_strict(
                     converted_idx.items(), value_unbind
@@ -2320,7 +2333,17 @@ class LazyStackedTensorDict(TensorDictBase):
                         value_unbind,
                     ):
                         if mask.any():
-                            self.tensordicts[i][_idx] = _value
+                            # mask is a 0-dim True: index the member with the other
+                            # items and drop the matching singleton dim of the value
+                            # (a member that is itself a lazy stack cannot be indexed
+                            # with a 0-dim mask)
+                            mask_loc = split_index["mask_loc"]
+                            _idx = _idx[:mask_loc] + _idx[mask_loc + 1 :]
+                            _value = _value.squeeze(split_dim)
+                            if _idx:
+                                self.tensordicts[i][_idx] = _value
+                            else:
+                                self.tensordicts[i].update(_value, inplace=True)
                 else:
                     for (i, _idx), _value in _zip_strict(
                         converted_idx.items(), value_unbind
